@@ -41,8 +41,96 @@ package x509
 //@   modifies nothing
 //@   terminates
 
+//@ pred keptInt() = forallv(q, *int, old(allocated(q)) ==> *q == old(*q), *q)
+// ---- signature algorithms: tables (transcribed from the composite literals of x509.go)
+//@ pred oidA4(o, a, b, c, d) = len(o) == 4 && o[0] == a && o[1] == b && o[2] == c && o[3] == d
+//@ pred oidA6(o, a, b, c, d, e, f) = len(o) == 6 && o[0] == a && o[1] == b && o[2] == c && o[3] == d && o[4] == e && o[5] == f
+//@ pred oidA7(o, a, b, c, d, e, f, g) = len(o) == 7 && o[0] == a && o[1] == b && o[2] == c && o[3] == d && o[4] == e && o[5] == f && o[6] == g
+//@ pred oidA9(o, a, b, c, d, e, f, g, h, i) = len(o) == 9 && o[0] == a && o[1] == b && o[2] == c && o[3] == d && o[4] == e && o[5] == f && o[6] == g && o[7] == h && o[8] == i
+//@ global oidA7(oidSignatureMD2WithRSA, 1, 2, 840, 113549, 1, 1, 2) && oidA7(oidSignatureMD5WithRSA, 1, 2, 840, 113549, 1, 1, 4) && oidA7(oidSignatureSHA1WithRSA, 1, 2, 840, 113549, 1, 1, 5) && oidA7(oidSignatureSHA256WithRSA, 1, 2, 840, 113549, 1, 1, 11) && oidA7(oidSignatureSHA384WithRSA, 1, 2, 840, 113549, 1, 1, 12) && oidA7(oidSignatureSHA512WithRSA, 1, 2, 840, 113549, 1, 1, 13) && oidA7(oidSignatureRSAPSS, 1, 2, 840, 113549, 1, 1, 10)
+//@ global oidA6(oidSignatureDSAWithSHA1, 1, 2, 840, 10040, 4, 3) && oidA9(oidSignatureDSAWithSHA256, 2, 16, 840, 1, 101, 3, 4, 3, 2) && oidA6(oidSignatureECDSAWithSHA1, 1, 2, 840, 10045, 4, 1) && oidA7(oidSignatureECDSAWithSHA256, 1, 2, 840, 10045, 4, 3, 2) && oidA7(oidSignatureECDSAWithSHA384, 1, 2, 840, 10045, 4, 3, 3) && oidA7(oidSignatureECDSAWithSHA512, 1, 2, 840, 10045, 4, 3, 4) && oidA4(oidKeyEd25519, 1, 3, 101, 112) && oidA6(oidISOSignatureSHA1WithRSA, 1, 3, 14, 3, 2, 29)
+//@ pred rowIs(i, a, o) = signatureAlgorithmDetails[i].algo == a && same(signatureAlgorithmDetails[i].oid, o)
+//@ global len(signatureAlgorithmDetails) == 17 && rowIs(0, MD2WithRSA, oidSignatureMD2WithRSA) && rowIs(1, MD5WithRSA, oidSignatureMD5WithRSA) && rowIs(2, SHA1WithRSA, oidSignatureSHA1WithRSA) && rowIs(3, SHA1WithRSA, oidISOSignatureSHA1WithRSA) && rowIs(4, SHA256WithRSA, oidSignatureSHA256WithRSA) && rowIs(5, SHA384WithRSA, oidSignatureSHA384WithRSA) && rowIs(6, SHA512WithRSA, oidSignatureSHA512WithRSA) && rowIs(7, SHA256WithRSAPSS, oidSignatureRSAPSS) && rowIs(8, SHA384WithRSAPSS, oidSignatureRSAPSS) && rowIs(9, SHA512WithRSAPSS, oidSignatureRSAPSS) && rowIs(10, DSAWithSHA1, oidSignatureDSAWithSHA1) && rowIs(11, DSAWithSHA256, oidSignatureDSAWithSHA256) && rowIs(12, ECDSAWithSHA1, oidSignatureECDSAWithSHA1) && rowIs(13, ECDSAWithSHA256, oidSignatureECDSAWithSHA256) && rowIs(14, ECDSAWithSHA384, oidSignatureECDSAWithSHA384) && rowIs(15, ECDSAWithSHA512, oidSignatureECDSAWithSHA512) && rowIs(16, Ed25519Sig, oidKeyEd25519)
+//@ global algoName[SHA256WithRSAPSS] == "SHA256-RSAPSS" && algoName[SHA384WithRSAPSS] == "SHA384-RSAPSS" && algoName[SHA512WithRSAPSS] == "SHA512-RSAPSS"
+// "String": the table name for the declared algorithms (decimal number otherwise).
 //@ func (SignatureAlgorithm).String
+//@   ensures 0 < algo && algo <= Ed25519Sig ==> result == algoName[algo]
 //@   modifies nothing
+//@   terminates
+
+// C33 "signature algorithm names: decoding the encoded JSON succeeds and yields an equal
+// value", for the declared algorithms MD2WithRSA..Ed25519Sig (the zero value
+// UnknownSignatureAlgorithm is excluded: the repository's test TestSignatureAlgorithmJSON
+// requires that it fails to decode). The decoder's rule ((*SignatureAlgorithm).UnmarshalJSON),
+// as a predicate on what the encoder hands to json.Marshal: for the RSA-PSS identifier the
+// algorithm is chosen by name among the three PSS algorithms; otherwise it is the algorithm of
+// the FIRST table row whose OID equals the encoded one - sigDecodes says that some row matches
+// and that every matching row names s, so the first one does. One `at call` clause per
+// declared algorithm (the case split keeps every obligation small). The rule is transcribed from
+// the decoder, not linked to its code (the decoded auxiliary value cannot be named in a
+// postcondition of UnmarshalJSON); see the notes.
+// (quantifiers over arc positions are triggered by spec.jmark(k), /verif/specs/x509json.smt2, and
+// carry it as a premise; marks9() puts the positions 0..8 - no table OID has more than 9 arcs -
+// into the proof context, so that every such quantifier is instantiated at exactly these.)
+//@ pred arcsEq(a, b) = len(a) == len(b) && forall(k, 0, len(a), !spec.jmark(k) || a[k] == b[k], spec.jmark(k))
+//@ pred marks9() = spec.jmark(0) && spec.jmark(1) && spec.jmark(2) && spec.jmark(3) && spec.jmark(4) && spec.jmark(5) && spec.jmark(6) && spec.jmark(7) && spec.jmark(8)
+//@ pred rowAgrees(r, oid, s) = arcsEq(signatureAlgorithmDetails[r].oid, oid) ==> signatureAlgorithmDetails[r].algo == s
+//@ pred allRowsAgree(oid, s) = rowAgrees(0, oid, s) && rowAgrees(1, oid, s) && rowAgrees(2, oid, s) && rowAgrees(3, oid, s) && rowAgrees(4, oid, s) && rowAgrees(5, oid, s) && rowAgrees(6, oid, s) && rowAgrees(7, oid, s) && rowAgrees(8, oid, s) && rowAgrees(9, oid, s) && rowAgrees(10, oid, s) && rowAgrees(11, oid, s) && rowAgrees(12, oid, s) && rowAgrees(13, oid, s) && rowAgrees(14, oid, s) && rowAgrees(15, oid, s) && rowAgrees(16, oid, s)
+//@ pred pssByName(name, s) = (name == "SHA256-RSAPSS" && s == SHA256WithRSAPSS) || (name != "SHA256-RSAPSS" && name == "SHA384-RSAPSS" && s == SHA384WithRSAPSS) || (name != "SHA256-RSAPSS" && name != "SHA384-RSAPSS" && name == "SHA512-RSAPSS" && s == SHA512WithRSAPSS)
+// sigDecodes(name, oid, s, r): the decoder's rule yields s for (name, oid); r = a row whose OID
+// is the encoded one (the witness of "some row matches").
+//@ pred sigDecodes(name, oid, s, r) = ite(arcsEq(oid, oidSignatureRSAPSS), pssByName(name, s), arcsEq(signatureAlgorithmDetails[r].oid, oid) && allRowsAgree(oid, s))
+// Encoder loop, one clause per declared algorithm x (r = its LAST table row, o = that row's
+// OID variable): once row r has been passed, aux.OID is an arc-by-arc copy of o.
+//@ pred encInv(sv, n, cur, x, r, o) = sv == x && n > r ==> arcsEq(cur, o)
+// The two cases of sigDecodes, written so that every conjunct becomes its own obligation:
+// encOutP (x is a PSS algorithm: the encoded OID is the PSS one and the name selects x),
+// encOutN (any other x: the encoded OID is not the PSS one, row r matches it, and every
+// matching row names x).
+//@ pred encOutP(sv, name, cur, x) = sv == x ==> arcsEq(cur, oidSignatureRSAPSS) && pssByName(name, x)
+//@ pred encOutN(sv, cur, x, r) = sv == x ==> !arcsEq(cur, oidSignatureRSAPSS) && arcsEq(signatureAlgorithmDetails[r].oid, cur) && allRowsAgree(cur, x)
+//@ func (*SignatureAlgorithm).MarshalJSON
+//@   requires s != nil && allocated(s)
+//@   loop 1 invariant fresh(aux.OID) && keptInt() && aux.Name == atentry(aux.Name) && marks9()
+//@   loop 1 invariant encInv(*s, it, aux.OID, MD2WithRSA, 0, oidSignatureMD2WithRSA)
+//@   loop 1 invariant encInv(*s, it, aux.OID, MD5WithRSA, 1, oidSignatureMD5WithRSA)
+//@   loop 1 invariant encInv(*s, it, aux.OID, SHA1WithRSA, 3, oidISOSignatureSHA1WithRSA)
+//@   loop 1 invariant encInv(*s, it, aux.OID, SHA256WithRSA, 4, oidSignatureSHA256WithRSA)
+//@   loop 1 invariant encInv(*s, it, aux.OID, SHA384WithRSA, 5, oidSignatureSHA384WithRSA)
+//@   loop 1 invariant encInv(*s, it, aux.OID, SHA512WithRSA, 6, oidSignatureSHA512WithRSA)
+//@   loop 1 invariant encInv(*s, it, aux.OID, SHA256WithRSAPSS, 7, oidSignatureRSAPSS)
+//@   loop 1 invariant encInv(*s, it, aux.OID, SHA384WithRSAPSS, 8, oidSignatureRSAPSS)
+//@   loop 1 invariant encInv(*s, it, aux.OID, SHA512WithRSAPSS, 9, oidSignatureRSAPSS)
+//@   loop 1 invariant encInv(*s, it, aux.OID, DSAWithSHA1, 10, oidSignatureDSAWithSHA1)
+//@   loop 1 invariant encInv(*s, it, aux.OID, DSAWithSHA256, 11, oidSignatureDSAWithSHA256)
+//@   loop 1 invariant encInv(*s, it, aux.OID, ECDSAWithSHA1, 12, oidSignatureECDSAWithSHA1)
+//@   loop 1 invariant encInv(*s, it, aux.OID, ECDSAWithSHA256, 13, oidSignatureECDSAWithSHA256)
+//@   loop 1 invariant encInv(*s, it, aux.OID, ECDSAWithSHA384, 14, oidSignatureECDSAWithSHA384)
+//@   loop 1 invariant encInv(*s, it, aux.OID, ECDSAWithSHA512, 15, oidSignatureECDSAWithSHA512)
+//@   loop 1 invariant encInv(*s, it, aux.OID, Ed25519Sig, 16, oidKeyEd25519)
+//@   loop 2 invariant fresh(aux.OID) && len(aux.OID) == len(val.oid) && keptInt() && aux.Name == atentry(aux.Name)
+//@   loop 2 invariant forall(k, 0, it, !spec.jmark(k) || aux.OID[k] == val.oid[k], spec.jmark(k)) && spec.jmark(it)
+//@   at call json.Marshal assert encOutN(*s, aux.OID, MD2WithRSA, 0)
+//@   at call json.Marshal assert encOutN(*s, aux.OID, MD5WithRSA, 1)
+//@   at call json.Marshal assert encOutN(*s, aux.OID, SHA1WithRSA, 3)
+//@   at call json.Marshal assert encOutN(*s, aux.OID, SHA256WithRSA, 4)
+//@   at call json.Marshal assert encOutN(*s, aux.OID, SHA384WithRSA, 5)
+//@   at call json.Marshal assert encOutN(*s, aux.OID, SHA512WithRSA, 6)
+//@   at call json.Marshal assert encOutP(*s, aux.Name, aux.OID, SHA256WithRSAPSS)
+//@   at call json.Marshal assert encOutP(*s, aux.Name, aux.OID, SHA384WithRSAPSS)
+//@   at call json.Marshal assert encOutP(*s, aux.Name, aux.OID, SHA512WithRSAPSS)
+//@   at call json.Marshal assert encOutN(*s, aux.OID, DSAWithSHA1, 10)
+//@   at call json.Marshal assert encOutN(*s, aux.OID, DSAWithSHA256, 11)
+//@   at call json.Marshal assert encOutN(*s, aux.OID, ECDSAWithSHA1, 12)
+//@   at call json.Marshal assert encOutN(*s, aux.OID, ECDSAWithSHA256, 13)
+//@   at call json.Marshal assert encOutN(*s, aux.OID, ECDSAWithSHA384, 14)
+//@   at call json.Marshal assert encOutN(*s, aux.OID, ECDSAWithSHA512, 15)
+//@   at call json.Marshal assert encOutN(*s, aux.OID, Ed25519Sig, 16)
+//@   modifies nothing
+//@   terminates
+//@ func (*SignatureAlgorithm).UnmarshalJSON
+//@   requires s != nil
+//@   modifies *s
 //@   terminates
 
 //@ func (*PublicKeyAlgorithm).MarshalJSON
@@ -52,17 +140,6 @@ package x509
 //@ func (*PublicKeyAlgorithm).UnmarshalJSON
 //@   requires p != nil
 //@   modifies *p
-//@   terminates
-
-//@ func (*SignatureAlgorithm).MarshalJSON
-//@   requires s != nil
-//@   loop 1 invariant fresh(aux.OID) && forallv(q, *int, old(allocated(q)) ==> *q == old(*q))
-//@   loop 2 invariant fresh(aux.OID) && len(aux.OID) == len(val.oid) && forallv(q, *int, old(allocated(q)) ==> *q == old(*q))
-//@   modifies nothing
-//@   terminates
-//@ func (*SignatureAlgorithm).UnmarshalJSON
-//@   requires s != nil
-//@   modifies *s
 //@   terminates
 
 // ---------------------------------------------------------------- certificate policies (C02)
@@ -160,7 +237,6 @@ package x509
 //@   terminates
 
 // ---------------------------------------------------------------- json.go: signature algorithm of a certificate
-//@ pred keptInt() = forallv(q, *int, old(allocated(q)) ==> *q == old(*q), *q)
 // "gathers the necessary fields in a Certificate into a JSONSignatureAlgorithm": the OID is a
 // copy of the certificate's (this is what "preserves the OID originally in the certificate" means).
 //@ func (*Certificate).jsonifySignatureAlgorithm
@@ -299,7 +375,7 @@ package x509
 // certificate's lists are as the parser leaves them (the link between the parser and the
 // encoder for C02: json.Marshal reaches that MarshalJSON through this object).
 //@ func (*Certificate).JsonifyExtensions
-//@   requires c != nil
+//@   requires c != nil && allocated(c)
 //@   loop 1 invariant fresh(unk) && exts != nil && fresh(exts)
 //@   loop 1 invariant exts.CertificatePolicies != nil ==> fresh(exts.CertificatePolicies) && same(exts.CertificatePolicies.PolicyIdentifiers, c.PolicyIdentifiers) && same(exts.CertificatePolicies.QualifierId, c.QualifierId) && same(exts.CertificatePolicies.CPSUri, c.CPSuri) && same(exts.CertificatePolicies.ExplicitTexts, c.ParsedExplicitTexts) && same(exts.CertificatePolicies.NoticeRefOrganization, c.ParsedNoticeRefOrganization) && same(exts.CertificatePolicies.NoticeRefNumbers, c.NoticeRefNumbers) && same(exts.CertificatePolicies.UserNotices, c.UserNotices)
 //@   ensures result0 != nil && fresh(result0)
@@ -328,7 +404,7 @@ package x509
 // C02/C01: total on every decoded statement list (any identifiers, any statementInfo bytes -
 // attacker-controlled; asn1.Unmarshal is assumed: an error, never a panic).
 //@ func (*QCStatements).Parse
-//@   requires q != nil && in != nil
+//@   requires q != nil && in != nil && allocated(q) && allocated(in)
 //@   loop 1 invariant same(q.StatementIDs, atentry(q.StatementIDs)) && same(in.QCStatements, atentry(in.QCStatements))
 //@   ensures result == nil ==> q.ParsedStatements != nil && len(q.StatementIDs) == len(in.QCStatements)
 //@   modifies all
